@@ -39,6 +39,10 @@ def run(ctx):
     # node, moves _head past it and retires it, a third thread pushes (acquires _tail) and the popper's thread exits (its exit scan reclaims).
     # Found by the Ramalhete impl spec (HelpTail); on the real code it needs two preemptions at the right places among ~150 steps.
     djobs = ['%s/%s/I;%s' % (qc, r, DIRECTED2 if qc in ('ram21', 'nik21') else DIRECTED) for qc in ('ram10', 'nik10', 'ms', 'ram21', 'nik21') for r in (('he3', 'stamp') if q else RECL)]
+    # a node that has just got a free slot back (setup: fill, pop): one push takes the slot and is stopped before it publishes the value, a second push
+    # finds the node full, links a successor (and closes the node), a popper drains the node and moves on - the stopped push must not lose its value
+    # (the node is closed BEFORE the successor is linked; seeded change c04_5 moved the finalization behind the link).  Two preemptions.
+    djobs += ['%s/%s/I;push1,push2,pop;push4;push3;pop,pop' % (qc, r) for qc in ('nik21', 'ram21') for r in (('ebr0', 'hp3') if q else RECL)]
     run_queues(ctx, djobs, pb=2, max_exec=12000 if q else 80000, tagx='d')
     # A: address reuse.  The heap quarantine never hands out an address twice; with --reuse the children recycle freed blocks (LIFO per size
     # class), so that a node pointer compared by a CAS can belong to a NEW node at the old address (ABA through head / tail / next / entries)
